@@ -31,6 +31,7 @@ type textprotoReader struct {
 	R        *bufio.Reader
 	buf      []byte // a re-usable buffer for readContinuedLineSlice
 	readLine func() (line []byte, isPrefix bool, err error)
+	dumps    dump.Dumpers // response header dumpers, if any
 }
 
 // NewReader returns a new textprotoReader reading from r.
@@ -40,7 +41,7 @@ type textprotoReader struct {
 // the size of responses.
 func newTextprotoReader(r *bufio.Reader, ds dump.Dumpers) *textprotoReader {
 	commonHeaderOnce.Do(initCommonHeader)
-	t := &textprotoReader{R: r}
+	t := &textprotoReader{R: r, dumps: ds}
 
 	if ds.ShouldDump() {
 		t.readLine = func() (line []byte, isPrefix bool, err error) {
@@ -190,6 +191,7 @@ func (r *textprotoReader) readContinuedLineSlice(lim int64, validateFirstLine fu
 // skipSpace skips R over all spaces and returns the number of bytes skipped.
 func (r *textprotoReader) skipSpace() int {
 	n := 0
+	var skipped []byte // only collected when the response header is dumped
 	for {
 		c, err := r.R.ReadByte()
 		if err != nil {
@@ -200,8 +202,14 @@ func (r *textprotoReader) skipSpace() int {
 			r.R.UnreadByte()
 			break
 		}
+		if r.dumps.ShouldDump() {
+			skipped = append(skipped, c)
+		}
 		n++
 	}
+	// The leading whitespace of a continuation line is consumed here, not
+	// by readLine: dump it too, so that the dump shows the line as received.
+	r.dumps.DumpResponseHeader(skipped)
 	return n
 }
 
